@@ -74,8 +74,18 @@ def differential(name, f_sym, f_real, arglists):
         if isinstance(got[1], (list, tuple)) and got[0] == 'ok':
             got = ('ok', type(want[1])(got[1]) if isinstance(want[1], (list, tuple)) else got[1])
         if not _same(got, want):
+            if name in ('str upper', 'str lower') and got[0] == want[0] == 'ok' and _same_modulo_nonascii(got[1], want[1]):
+                continue
             bad.append((args, want, got))
     return name, n, bad
+
+
+def _same_modulo_nonascii(a, b):
+    """case-mapped strings: the model over-approximates the image of a non-ASCII cased character by 'some non-ASCII
+    character', so only the ASCII skeleton and the length must agree"""
+    if not (isinstance(a, str) and isinstance(b, str)) or len(a) != len(b):
+        return False
+    return all((x == y) or (ord(x) >= 128 and ord(y) >= 128) for x, y in zip(a, b))
 
 
 def _same(a, b):
